@@ -410,16 +410,22 @@ IFB_BLOCKS = ["unnamed", "generic", "abstract", "in-procedure", "generic-in-proc
 IFB_SLOTS = ["argtype", "result", "ppi-absint"]
 
 
-def build_ifb(block, slot, present, useform, case, host_use):
+def build_ifb(block, slot, present, useform, case, host_use, via="direct"):
     """An interface body is a scope of its own: what it names comes from its own USE (or IMPORT) only."""
     dname = {"lower": X, "mixed": "Xq", "refupper": X}[case]
     rname = {"lower": X, "mixed": X, "refupper": "XQ"}[case]
     kind = "absint" if slot == "ppi-absint" else "type"
     lib = []
+    files = {}
     for mod, pl in (("otherm", "other"), ("usedm", "used")):
         sp, c = decl(kind, pl, dname) if pl in present else ([], [])
-        lib += [f"module {mod}", "  implicit none", "  integer :: filler_u"] + ind(sp) + [f"end module {mod}", ""]
-    files = {"src/a_lib.f90": "\n".join(lib) + "\n"}
+        if mod == "usedm" and via == "reexport":
+            # the declaration lives in zbasem (own file, read last by default); usedm only passes it on
+            files["src/z_base.f90"] = "\n".join(["module zbasem", "  implicit none"] + ind(sp) + ["end module zbasem"]) + "\n"
+            lib += ["module usedm", "  use zbasem", "  implicit none", "  integer :: filler_u", "end module usedm", ""]
+        else:
+            lib += [f"module {mod}", "  implicit none", "  integer :: filler_u"] + ind(sp) + [f"end module {mod}", ""]
+    files["src/n_lib.f90"] = "\n".join(lib) + "\n"
     uline = use_line(("self", useform, "direct"), dname, rname).split("\n")
     if slot == "argtype":
         body = ["subroutine body(refv)"] + ind(uline) + [f"  type({rname}) :: refv", "end subroutine body"]
@@ -434,7 +440,7 @@ def build_ifb(block, slot, present, useform, case, host_use):
         src = ["module hostm"] + hu + ["  implicit none", "contains", "  subroutine hostp()"] + ind(blk, 2) + ["  end subroutine hostp", "end module hostm"]
     else:
         src = ["module hostm"] + hu + ["  implicit none"] + ind(blk) + ["end module hostm"]
-    files["src/m_host.f90"] = "\n".join(src) + "\n"
+    files["src/a_host.f90"] = "\n".join(src) + "\n"
     return files
 
 
@@ -465,16 +471,20 @@ def gen_ifb_cases(tier):
                             if host_use and "other" in present:
                                 continue  # FORD lets interface bodies see the host's names (no IMPORT needed): keep the host silent about this name
                             yield ("ifb:" + block, slot, present, case, form, host_use)
+                        if "used" in present and form in ("plain", "only-x"):
+                            # the name reaches usedm through a re-export; the host module is read first
+                            yield ("ifb:" + block, slot, present, case, form, False, "reexport")
 
 
 def run_ifb_case(st: Stats, case):
-    block, slot, present, cs, form, host_use = case
+    block, slot, present, cs, form, host_use, *more = case
+    via = more[0] if more else "direct"
     block = block[4:]
-    files = build_ifb(block, slot, set(present), form, cs, host_use)
+    files = build_ifb(block, slot, set(present), form, cs, host_use, via)
     want = "used" if ("used" in present and used_visible(("self", form, "direct"))) else "unresolved"
     stratum = f"interface-body/{block}/{slot}"
-    inp = dict(case=["ifb:" + block, slot, list(present), cs, form, host_use], files=files)
-    feats = dict(slot=slot, scope=f"interface-body-{block}", present=",".join(present), case=cs, order="-", expected=want, use_form=form, host_use=host_use)
+    inp = dict(case=["ifb:" + block, slot, list(present), cs, form, host_use] + ([via] if more else []), files=files)
+    feats = dict(slot=slot, scope=f"interface-body-{block}", present=",".join(present), case=cs, order="-", expected=want, use_form=form, host_use=host_use, use_via=via)
     for perm in itertools.permutations(sorted(files)):
         fordrun.FILE_ORDER = lambda fl, perm=perm: sorted(fl, key=lambda p: perm.index("src/" + p.name))
         r = fordrun.build_fast(files, dict(display=["public", "private", "protected"], proc_internals=True))
@@ -714,7 +724,7 @@ def replay(path):
     if str(slot).startswith("sub:"):
         run_sub_case(st, (slot, scope, tuple(present), cs, order))
     elif str(slot).startswith("ifb:"):
-        run_ifb_case(st, (slot, scope, tuple(present), cs, order, rest[0]))
+        run_ifb_case(st, (slot, scope, tuple(present), cs, order) + tuple(rest))
 
     else:
         run_case(st, (slot, scope, tuple(present), cs, order) + ((tuple(rest[0]),) if rest else ()), only_perm=rec["input"].get("order"))
